@@ -50,6 +50,19 @@ package common
 //@        && len(g.IgnoreFileErrTypesMap) == 0 ==> !result
 //@ end
 
+// each rule is matched as a regular expression with ITS OWN compiled pattern, taken from the table of its rule kind
+// (folder and file rules share one table, per-file type rules have their own); a rule that has a compiled pattern and
+// did not already decide by substring is always consulted
+//@ func (*GlobalConfig).IsIgnoreErrorFile
+//@   props C17
+//@   at call (*regexp.Regexp).MatchString#0 before assert[folder-rule-uses-its-own-pattern] has(g.IgnoreErrorFileOrFloderRegexp, floderStr) && arg0 == g.IgnoreErrorFileOrFloderRegexp[floderStr] && arg1 == strFile
+//@   at call (*regexp.Regexp).MatchString#1 before assert[file-rule-uses-its-own-pattern] has(g.IgnoreErrorFileOrFloderRegexp, fileStr) && arg0 == g.IgnoreErrorFileOrFloderRegexp[fileStr] && arg1 == strFile
+//@   at call (*regexp.Regexp).MatchString#2 before assert[type-rule-uses-its-own-pattern] has(g.IgnoreFileErrTypesRegexp, fileStr) && arg0 == g.IgnoreFileErrTypesRegexp[fileStr] && arg1 == strFile
+//@   loop range:g.IgnoreFileErrTypesMap step [compiled-type-rule-is-consulted] has(g.IgnoreFileErrTypesRegexp, fileStr) ==> hits("(*regexp.Regexp).MatchString#2") == prev(hits("(*regexp.Regexp).MatchString#2")) + 1
+//@   loop range:g.IgnoreErrorFileVec step [compiled-file-rule-is-consulted] has(g.IgnoreErrorFileOrFloderRegexp, fileStr) ==> hits("(*regexp.Regexp).MatchString#1") == prev(hits("(*regexp.Regexp).MatchString#1")) + 1
+//@   loop range:g.IgnoreErrorFloderVec step [compiled-folder-rule-is-consulted] has(g.IgnoreErrorFileOrFloderRegexp, floderStr) ==> hits("(*regexp.Regexp).MatchString#0") == prev(hits("(*regexp.Regexp).MatchString#0")) + 1
+//@ end
+
 //@ func (*GlobalConfig).IsSpecialCheck
 //@   props C17
 //@   sweep C01
@@ -307,6 +320,16 @@ package common
 //@   ensures[declaration-is-added-to-the-list-stored-under-its-name] has(af.CreateTypeMap, name)
 //@        && len(af.CreateTypeMap[name].List) == old(has(af.CreateTypeMap, name) ? len(af.CreateTypeMap[name].List) : 0) + 1
 //@        && af.CreateTypeMap[name].List[len(af.CreateTypeMap[name].List) - 1] == oneTypeInfo
+//@ end
+
+// one comment block may declare several classes back to back; each gets its OWN field table, so that a ---@field line
+// is recorded for the class it follows and for no other
+//@ func (*AnnotateFile).analysisAnnotateFragement
+//@   props C15
+//@   loop range:annotateFragment.Stats step [a-further-class-of-the-block-starts-with-its-own-field-table]
+//@        typeis(oneState, "*annotateast.AnnotateClassState") && prev(oneClassInfo.ClassState != nil)
+//@        ==> oneClassInfo != prev(oneClassInfo) && oneClassInfo.FieldMap != nil && oneClassInfo.FieldMap != prev(oneClassInfo.FieldMap)
+//@            && oneClassInfo.ClassState == as(oneState, "*annotateast.AnnotateClassState")
 //@ end
 
 // ---- C08 / C18: the file-name index follows file creation and deletion ----
